@@ -34,10 +34,14 @@ THEOREMS = [
     "IrVerif.Clone.C13_fresh_model",
     "IrVerif.Clone.C13_closed",
     "IrVerif.Clone.C13_closed_model",
+    "IrVerif.Clone.C13_closed_outer",
+    "IrVerif.Clone.C13_raises_iff_inputs",
     "IrVerif.Clone.C13_clone_pure",
     "IrVerif.Clone.C13_clone_pure_model",
     "IrVerif.Clone.C13_frame",
+    "IrVerif.Clone.C13_frame_weak",
     "IrVerif.Clone.C13_frame_clone_edited",
+    "IrVerif.Clone.C13_frame_clone_edited_outer",
     "IrVerif.Clone.C13_frame_function",
     "IrVerif.Clone.C13_functionalize",
     "IrVerif.Clone.C13_frame_orig_edited",
@@ -45,8 +49,7 @@ THEOREMS = [
     "IrVerif.Clone.C13_faithful",
     "IrVerif.Clone.C13_faithful_function",
     "IrVerif.Clone.C13_faithful_model",
-    "IrVerif.Clone.C13_faithful_serialize",
-    "IrVerif.Clone.C13_closed_outer",
+    "IrVerif.Clone.C13_faithful_observe",
 ]
 ASSUMPTIONS = [
     "hand-written model IrVerif.Clone of _cloner.py / the clone entry points / the constructors they call; tied to the "
@@ -153,11 +156,13 @@ class Built:
             v.shape = build_shape(s["shape"])
         v.doc_string = s.get("doc")
         if s.get("const") is not None:
-            v.const_value = self.tensors[s["const"]]
+            # one tensor object per value (a tensor shared by two initializers with different names is renamed
+            # back and forth by every serialization); the pool `self.tensors` is what `setConst` edits assign
+            v.const_value = ir.tensor(np.arange(s["const"] + 1, dtype=np.float32), name=s["name"])
         for k, x in s.get("props", {}).items():
             v.metadata_props[k] = x
         for k, x in s.get("meta", {}).items():
-            v.meta[k] = x
+            v.meta[k] = [x]  # a mutable object: deep_copy=True must copy it, deep_copy=False shares it
         for k in s.get("meta_invalid", []):
             v.meta.invalidate(k)
 
@@ -218,7 +223,7 @@ class Built:
             device_configurations=tuple(self.dev(d) for d in n.get("dev", [])),
         )
         for k, x in n.get("meta", {}).items():
-            node.meta[k] = x
+            node.meta[k] = [x]
         for k in n.get("meta_invalid", []):
             node.meta.invalidate(k)
         if n.get("unname"):
@@ -250,7 +255,7 @@ class Built:
             metadata_props=dict(g["props"]) if g.get("props") else None,
         )
         for k, x in g.get("meta", {}).items():
-            gr.meta[k] = x
+            gr.meta[k] = [x]
         self.graphs[g["name"]] = gr
         return gr
 
@@ -351,9 +356,11 @@ class Heap:
                 "uses": [[R("node", u.node), u.idx] for u in o._uses],
                 "graph": R("graph", o._graph), "in": o._is_graph_input, "out": o._is_graph_output,
                 "init": o._is_initializer,
-                "type": R("type", o.type), "shape": R("shape", o.shape), "const": self.tensor(o.const_value),
+                "type": R("type", o.type), "shape": R("shape", o.shape), "const": R("tensor", o.const_value),
                 "props": R("dict", o.metadata_props), "mstore": R("mstore", o.meta),
             }  # fmt: skip
+        if kind == "tensor":
+            return {"k": "tensor", "name": o.name}
         if kind == "node":
             return {
                 "k": "node", "name": o.name, "doc": o.doc_string, "domain": o.domain, "op": o.op_type,
@@ -444,7 +451,7 @@ def map_ptrs(c, f):
     c = dict(c)
     o = lambda x: None if x is None else f(x)  # noqa: E731
     if k == "val":
-        for fld in ("producer", "graph", "type", "shape"):
+        for fld in ("producer", "graph", "type", "shape", "const"):
             c[fld] = o(c[fld])
         c["props"] = f(c["props"])
         c["mstore"] = f(c["mstore"])
@@ -608,11 +615,13 @@ def type_snap(t):
     return tuple(r)
 
 
-def snapshot(root, own_nodes_only=True):
+def snapshot(root, own_nodes_only=True, shared_state=True, tensor_names=None, attr_state=None):
     """Deep structural snapshot of everything `root` owns; identities -> first-visit indices;
     usage records are restricted to the root's own nodes (a clone that captures an outer value
     legitimately adds itself to that value's users)."""
     graphs, nodes, values = walk(root)
+    tensor_names = shared_state if tensor_names is None else tensor_names
+    attr_state = shared_state if attr_state is None else attr_state
     vi = {id(v): i for i, v in enumerate(values)}
     ni = {id(n): i for i, n in enumerate(nodes)}
     gi = {id(g): i for i, g in enumerate(graphs)}
@@ -638,7 +647,9 @@ def snapshot(root, own_nodes_only=True):
             return ("graph", a.name, a.doc_string, gref(a.value))
         if a.type == ir.AttributeType.GRAPHS:
             return ("graphs", a.name, a.doc_string, tuple(gref(g) for g in a.value))
-        return ("plain", a.name, a.doc_string, id(a))
+        # a graph-free Attr object is shared with every clone: its own mutable state is observable state of both
+        extra = (tuple(sorted((k, repr(x)) for k, x in a.meta.items())),) if attr_state else ()
+        return ("plain", a.name, a.doc_string, id(a), *extra)
 
     sv = []
     for v in values:
@@ -648,7 +659,9 @@ def snapshot(root, own_nodes_only=True):
                    None if v.shape is None else (tuple(repr(d) for d in v.shape.dims),
                                                  tuple(v.shape.get_denotation(i) for i in range(len(v.shape))),
                                                  v.shape.frozen, id(v.shape)),
-                   id(v.const_value) if v.const_value is not None else None, meta(v),
+                   id(v.const_value) if v.const_value is not None else None,
+                   # the tensor object is shared with every clone: its name is observable state of both
+                   v.const_value.name if (tensor_names and v.const_value is not None) else None, meta(v),
                    None if prod is None else ni.get(id(prod), ("outer", id(prod))), v.index(), uses,
                    gref(v._graph), v._is_graph_input, v._is_graph_output, v._is_initializer))  # fmt: skip
     sn = []
@@ -704,6 +717,21 @@ def _equal_but_value_info(a: bytes, b: bytes) -> bool:
     del pa.value_info[:]
     del pb.value_info[:]
     return pa.SerializeToString(deterministic=True) == pb.SerializeToString(deterministic=True)
+
+
+def ser_excuse(root):
+    """why the observation function `serGraph` may be undefined although serde serializes: it requires consistent
+    containers (attribute filed under its own name, named values, initializer names distinct)"""
+    graphs, nodes, values = walk(root)
+    if any(k != a.name for n in nodes for k, a in n.attributes.items()):
+        return "attribute-key-differs-from-name"
+    if any(v.name is None for v in values):
+        return "unnamed-value"
+    for g in graphs:
+        names = [v.name for v in g.initializers.values()]
+        if len(set(names)) != len(names):
+            return "duplicate-initializer-name"
+    return None
 
 
 def source_analysis(root):
@@ -819,6 +847,20 @@ def check_clone_oracle(out, spec, src, clone, pre_cells, src_ser, tag):
     for v in values:
         if v._graph is not None and id(v._graph) not in owng:
             out.fail(f"closed:value.graph:{tag}", "clone value owned by a foreign graph", case)
+    if t.get("deep"):
+        # deep_copy=True: the objects stored in `meta` are copied, so mutating one in the clone is not visible
+        before = snapshot(src)
+        touched = []
+        for x in graphs + nodes + values:
+            for mv in x.meta.values():
+                if isinstance(mv, list):
+                    mv.append("mutated-in-clone")
+                    touched.append(mv)
+        out.count(f"deep_meta_objects_mutated={min(len(touched), 3)}")
+        if snapshot(src) != before:
+            out.fail(f"deep-copy-shares-meta-object:{tag}", "deep_copy=True clone shares a meta value with the original", case)
+        for mv in touched:
+            mv.pop()
     return entangled
 
 
@@ -866,6 +908,8 @@ def apply_edit(heap: Heap, b: Built, e):
             O(e["n"]).attributes[e["key"]] = ir.AttrInt64(e["key"], e["val"])
         elif k == "delAttr":
             del O(e["n"]).attributes[e["key"]]
+        elif k == "attrMetaSet":  # oracle-only: in-place state of a (possibly shared) Attr object
+            O(e["n"]).attributes[e["key"]].meta[e["mk"]] = e["x"]
         elif k == "setGraphName":
             O(e["g"]).name = e["s"]
         elif k == "setOpset":
@@ -882,6 +926,37 @@ def apply_edit(heap: Heap, b: Built, e):
             O(e["g"]).outputs.append(O(e["v"]))
         elif k == "popOutput":
             O(e["g"]).outputs.pop()
+        elif k == "setNodeDomain":
+            O(e["n"]).domain = e["s"]
+        elif k == "setNodeOverload":
+            O(e["n"]).overload = e["s"]
+        elif k == "setNodeVersion":
+            O(e["n"]).version = e["ver"]
+        elif k == "setNodeDoc":
+            O(e["n"]).doc_string = e["s"]
+        elif k == "setGraphDoc":
+            O(e["g"]).doc_string = e["s"]
+        elif k == "setFuncName":
+            O(e["f"]).name = e["s"]
+        elif k == "setModelHeader":
+            mo = O(e["mo"])
+            setattr(mo, e["field"], e["s"])
+            hdr = (mo.ir_version, mo.producer_name, mo.producer_version, mo.domain, mo.model_version, mo.doc_string)
+            e["p"] = heap.payload(("hdr", hdr))
+        elif k == "setDev":
+            cfgs = []
+            for d in e["devspec"]:
+                specs = tuple(ir.ShardingSpec(value=None if sp["value"] is None else O(sp["value"]), device=(0, 1))
+                              for sp in d["specs"])  # fmt: skip
+                cfgs.append(ir.NodeDeviceConfiguration(
+                    configuration=None if d["cfg"] is None else b.configs[d["cfg"]], sharding_specs=specs,
+                    pipeline_stage=d["stage"]))  # fmt: skip
+            O(e["n"]).device_configurations = tuple(cfgs)
+            e["dev"] = [{"cfg": heap.payload(("cfg", heap.ident(c.configuration), c.pipeline_stage)),
+                         "specs": [[None if sp.value is None else heap.ids[id(sp.value)],
+                                    heap.payload(("spec", sp.device, repr(sp.index_to_device_group_map),
+                                                  repr(sp.sharded_dims)))] for sp in c.sharding_specs]}
+                        for c in cfgs]  # fmt: skip
         else:
             raise AssertionError(k)
         return "ok"
@@ -891,7 +966,10 @@ def apply_edit(heap: Heap, b: Built, e):
         return "raised"
 
 
-_ID_FIELDS = {"v", "o", "n", "g"}
+_ID_FIELDS = {"v", "o", "n", "g", "f", "mo"}
+# edits whose effect lies outside the model (in-place state of Attr objects): applied to the real objects and
+# judged by the oracle, not sent to the model
+ORACLE_ONLY = {"attrMetaSet"}
 
 
 # --------------------------------------------------------------------------- generators
@@ -955,7 +1033,7 @@ class SpecGen:
         self.metas(s)
         return s
 
-    def graph(self, depth, visible, unsorted_ok=True, allow_outer_out=False):
+    def graph(self, depth, visible, unsorted_ok=True, allow_outer_out=False, in_function=False):
         """visible: names of outer values that may be captured"""
         rng = self.rng
         self.gcount += 1
@@ -996,11 +1074,15 @@ class SpecGen:
                 if rng.random() < 0.05:
                     a["key"] = a["name"] + "_key"
                 n["attrs"].append(a)
+            if in_function and rng.random() < 0.25:
+                # a reference to an attribute parameter of the enclosing function
+                n["attrs"].append({"name": self.name("r"), "kind": "ref", "value": "alpha"})
             if depth > 0 and rng.random() < 0.35:
                 vis = list(dict.fromkeys(visible + local))
                 if rng.random() < 0.7:
                     n["attrs"].append({"name": self.name("body"), "kind": "graph",
-                                       "value": self.graph(depth - 1, vis, unsorted_ok, allow_outer_out=True)})  # fmt: skip
+                                       "value": self.graph(depth - 1, vis, unsorted_ok, allow_outer_out=True,
+                                                           in_function=in_function)})  # fmt: skip
                 else:
                     n["attrs"].append({"name": self.name("branches"), "kind": "graphs",
                                        "value": [self.graph(depth - 1, vis, unsorted_ok) for _ in range(rng.randrange(1, 3))]})  # fmt: skip
@@ -1054,8 +1136,19 @@ def gen_spec_failing_after_nested(rng):
     g2_nodes = [loop]
     outputs = [loop["outs"][0]["name"]]
     g2 = {"name": "g2", "inputs": [], "inits": [], "nodes": g2_nodes, "outputs": outputs}
-    how = rng.choice(["ghost", "unsorted", "unsorted"])
-    if how == "ghost":
+    how = rng.choice(["ghost", "unsorted", "unsorted", "ok", "ok", "ok"])
+    nconfigs = 0
+    if how == "ok":
+        # the clone succeeds and consumes outer-scope values directly, one of them under a sharding spec
+        nconfigs = 1
+        cap = {"name": sg.name("n"), "op": "Add", "inputs": [va["name"], x["name"], loop["outs"][0]["name"]],
+               "outs": [sg.value("v")], "attrs": [],
+               "dev": [{"cfg": 0, "stage": rng.choice([None, 0]),
+                        "specs": [{"value": rng.choice([va["name"], x["name"]]), "device": [0, 1]}]},
+                       {"cfg": 0, "stage": 1, "specs": []}]}  # fmt: skip
+        g2_nodes.append(cap)
+        outputs.append(cap["outs"][0]["name"])
+    elif how == "ghost":
         g2["ghost_outputs"] = [sg.name("ghost")]
     else:
         d = {"name": sg.name("n"), "op": "Relu", "inputs": [loop["outs"][0]["name"]], "outs": [sg.value("v")], "attrs": []}
@@ -1068,13 +1161,14 @@ def gen_spec_failing_after_nested(rng):
                      "attrs": [{"name": "then_branch", "kind": "graph", "value": g2}]}]}  # fmt: skip
     g1["outputs"] = [g1["nodes"][1]["outs"][0]["name"]]
     return {"ntensors": 3, "type_pool": [gen_type(rng) for _ in range(sg.ntypes)],
-            "shape_pool": [gen_shape(rng) for _ in range(sg.nshapes)], "nconfigs": 0, "graph": g1,
+            "shape_pool": [gen_shape(rng) for _ in range(sg.nshapes)], "nconfigs": nconfigs,
+            **({"ir_version": 11} if nconfigs else {}), "graph": g1,
             "functions": [], "views": [],
             "target": {"kind": "subgraph", "name": "g2", "allow": rng.random() < 0.85}}  # fmt: skip
 
 
 def gen_spec(rng, size=4):
-    if rng.random() < 0.04:
+    if rng.random() < 0.1:
         return gen_spec_failing_after_nested(rng)
     sg = SpecGen(rng, size)
     spec = {
@@ -1089,7 +1183,7 @@ def gen_spec(rng, size=4):
     if sg.nconfigs:
         spec["ir_version"] = 11
     for k in range(rng.choice([0, 0, 1, 2])):
-        f = {"domain": "fdom", "name": f"f{k}", "graph": sg.graph(1, []), "attrs": []}
+        f = {"domain": "fdom", "name": f"f{k}", "graph": sg.graph(1, [], in_function=True), "attrs": []}
         if rng.random() < 0.5:
             f["attrs"].append({"name": "alpha", "kind": "int", "value": 1})
         if rng.random() < 0.5:
@@ -1120,12 +1214,12 @@ def gen_spec(rng, size=4):
 
     collect(spec["graph"], 0)
     r = rng.random()
-    if r < 0.25:
+    if r < 0.2:
         spec["target"] = {"kind": "model"}
-    elif r < 0.45:
+    elif r < 0.35:
         spec["target"] = {"kind": "graph", "name": spec["graph"]["name"], "allow": rng.random() < 0.4}
     elif r < 0.65 and subs:
-        spec["target"] = {"kind": "subgraph", "name": rng.choice(subs), "allow": rng.random() < 0.7}
+        spec["target"] = {"kind": "subgraph", "name": rng.choice(subs), "allow": rng.random() < 0.8}
     elif r < 0.75 and spec["functions"]:
         spec["target"] = {"kind": "function", "index": rng.randrange(len(spec["functions"]))}
     elif r < 0.9 and spec["graph"]["nodes"]:
@@ -1163,8 +1257,13 @@ def gen_edits(rng, heap: Heap, b: Built, side_root, n_edits):
     ids = lambda xs: [R[id(x)] for x in xs if id(x) in R]  # noqa: E731
     gv, nv, vv = ids(graphs), ids(nodes), ids(values)
     owners = gv + nv + vv
+    fv, mv = [], []
     if isinstance(side_root, ir.Model) and id(side_root) in R:
         owners.append(R[id(side_root)])
+        mv = [R[id(side_root)]]
+        fv = ids(list(side_root.functions.values()))
+    elif isinstance(side_root, ir.Function) and id(side_root) in R:
+        fv = [R[id(side_root)]]
     edits = []
     fresh = 0
     for _ in range(n_edits):
@@ -1175,9 +1274,15 @@ def gen_edits(rng, heap: Heap, b: Built, side_root, n_edits):
         if owners:
             kinds += ["dictSet", "dictSet", "dictDel", "metaInvalidate"]
         if nv:
-            kinds += ["replaceInput", "replaceInput", "setNodeName", "setOpType", "setAttr", "delAttr"]
+            kinds += ["replaceInput", "replaceInput", "setNodeName", "setOpType", "setAttr", "delAttr", "attrMetaSet"]
+        if nv:
+            kinds += ["setNodeDomain", "setNodeOverload", "setNodeVersion", "setNodeDoc", "setDev"]
+        if fv:
+            kinds += ["setFuncName"]
+        if mv:
+            kinds += ["setModelHeader"]
         if gv:
-            kinds += ["setGraphName", "setOpset", "popOutput"]
+            kinds += ["setGraphName", "setOpset", "popOutput", "setGraphDoc"]
             if nv:
                 kinds += ["removeNode", "appendNode"]
             if vv:
@@ -1227,6 +1332,10 @@ def gen_edits(rng, heap: Heap, b: Built, side_root, n_edits):
             n = rng.choice(nv)
             keys = list(heap.obj(n).attributes.keys())
             e.update(n=n, key=rng.choice(keys + ["missing"]))
+        elif k == "attrMetaSet":
+            n = rng.choice(nv)
+            keys = list(heap.obj(n).attributes.keys())
+            e.update(n=n, key=rng.choice(keys + ["missing"]), mk="z", x="1")
         elif k == "setGraphName":
             e.update(g=rng.choice(gv), s=rng.choice([None, "gg"]))
         elif k == "setOpset":
@@ -1242,6 +1351,31 @@ def gen_edits(rng, heap: Heap, b: Built, side_root, n_edits):
             e.update(g=rng.choice(gv), v=rng.choice(vv))
         elif k == "popOutput":
             e.update(g=rng.choice(gv))
+        elif k == "setNodeDomain":
+            e.update(n=rng.choice(nv), s=rng.choice(["", "custom", "other.domain"]))
+        elif k == "setNodeOverload":
+            e.update(n=rng.choice(nv), s=rng.choice(["", "ov2"]))
+        elif k == "setNodeVersion":
+            e.update(n=rng.choice(nv), ver=rng.choice([None, 1, 21]))
+        elif k == "setNodeDoc":
+            e.update(n=rng.choice(nv), s=rng.choice([None, "node doc"]))
+        elif k == "setGraphDoc":
+            e.update(g=rng.choice(gv), s=rng.choice([None, "graph doc"]))
+        elif k == "setFuncName":
+            e.update(f=rng.choice(fv), s=f"fn{fresh}")
+            fresh += 1
+        elif k == "setModelHeader":
+            e.update(mo=rng.choice(mv), field=rng.choice(["producer_name", "doc_string", "domain"]),
+                     s=rng.choice([None, f"hdr{fresh}"]))  # fmt: skip
+            fresh += 1
+        elif k == "setDev":
+            n = rng.choice(nv)
+            node = heap.obj(n)
+            cands = [R[id(x)] for x in list(node.inputs) + list(node.outputs) if x is not None and id(x) in R]
+            e.update(n=n, devspec=[
+                {"cfg": rng.randrange(len(b.configs)) if b.configs else None, "stage": rng.choice([None, 0, 1]),
+                 "specs": [{"value": rng.choice(cands + [None]) if cands else None} for _ in range(rng.randrange(0, 3))]}
+                for _ in range(rng.randrange(0, 3))])  # fmt: skip
         edits.append(e)
     return edits
 
@@ -1265,12 +1399,18 @@ def real_case(spec, histories_seed, n_hist, n_edits, out, fixed_plans=None):
             heap.add_root(r)
         src = b.target()
         src_id = heap.add_root(src)
+        for t in b.tensors:  # every tensor `setConst` may assign is a cell of the initial heap
+            heap.ref("tensor", t)
+        # serialization renames the tensor of every initializer to the value's name (serde.py
+        # serialize_graph_into): do it once up front so that later serializations by the oracle are no-ops
+        for r in b.roots():
+            serialize(r)
         world0 = heap.dump()
         return b, heap, src, src_id, world0
 
     b, heap, src, src_id, world0 = fresh_build()
     n0 = len(world0)
-    root_ids = [heap.add_root(r) for r in b.roots()] + [src_id]
+    root_ids = [heap.add_root(r) for r in b.roots()] + [src_id] + [heap.ref("tensor", t) for t in b.tensors]
     pre_cells = {}
     all_roots = b.roots()
     for r in all_roots:
@@ -1283,14 +1423,30 @@ def real_case(spec, histories_seed, n_hist, n_edits, out, fixed_plans=None):
     step = {"model": {"op": "modelClone", "mo": src_id}, "function": {"op": "funcClone", "f": src_id}}.get(kind) or {
         "op": "graphClone", "g": src_id, "allow": bool(t.get("allow"))}  # fmt: skip
     res = {"spec": spec, "world0": world0, "n0": n0, "roots": root_ids, "step": step, "tag": tag, "hist": [],
-           "src_serializes": isinstance(src_ser, bytes)}
+           "src_serializes": isinstance(src_ser, bytes),
+           "src_ser_exc": None if isinstance(src_ser, bytes) else src_ser[1], "ser_excuse": ser_excuse(src)}
     try:
         clone = do_clone_kind(b, kind, t)
         res["outcome"] = "ok"
     except Exception as e:  # noqa: BLE001
         clone = None
         res["outcome"] = "raised"
-        res["exc"] = type(e).__name__ + ":" + type(e.__cause__).__name__ if e.__cause__ else type(e).__name__
+        chain = []
+        x = e
+        while x is not None and len(chain) < 20:
+            chain.append(type(x).__name__)
+            x = x.__cause__
+        res["exc"] = ">".join(chain)
+        # "a clear error": the documented wrapper (RuntimeError naming the cloning step) around the error that
+        # names the offending value / output / container rule.  Anything else (AttributeError, AssertionError,
+        # IndexError, a bare KeyError, ...) is an accident, not an error report.
+        root_ok = {"ValueError", "KeyError", "TypeError"}
+        if not (chain[0] == "RuntimeError" and len(chain) >= 2 and set(chain[:-1]) == {"RuntimeError"}
+                and chain[-1] in root_ok):
+            out.fail(f"error-class:{'>'.join(dict.fromkeys(chain))}:{t['kind']}",
+                     "clone() failed with something other than the documented error report",
+                     {"spec": spec, "chain": chain})  # fmt: skip
+        out.count(f"exc_root={chain[-1]}")
     allow = bool(t.get("allow"))
     sig_shape = f"{'outer' if outer else 'closed'}:{'sorted' if ordered else 'unsorted'}:allow={allow}:{tag}"
     if clone is None:
@@ -1309,6 +1465,12 @@ def real_case(spec, histories_seed, n_hist, n_edits, out, fixed_plans=None):
         return res
     if outer and not allow:
         out.fail(f"no-error:{sig_shape}", "outer reference, not allowed, but clone() returned", {"spec": spec})
+    if allow and outer:
+        out.count("ok_clone_with_captured_outer_values")
+        own = {id(v) for v in walk(clone)[2]}
+        if any(sp.value is not None and id(sp.value) not in own
+               for n in walk(clone)[1] for c in n.device_configurations for sp in c.sharding_specs):
+            out.count("ok_clone_with_sharding_spec_on_captured_value")
     clone_id = heap.add_root(clone)
     res["clone_id"] = clone_id
     res["world1"] = heap.dump()
@@ -1342,12 +1504,18 @@ def real_case(spec, histories_seed, n_hist, n_edits, out, fixed_plans=None):
             st["others"] = (roots2 + [src2]) if side == "clone" else [clone2]
             if "before" not in st:
                 st["before"] = ([snapshot(r) for r in st["others"]], [serialize(r) for r in st["others"]])
+                st["lax_before"] = [snapshot(r, shared_state=False) for r in st["others"]]
+                st["t_before"] = [snapshot(r, tensor_names=True, attr_state=False) for r in st["others"]]
+                st["a_before"] = [snapshot(r, tensor_names=False, attr_state=True) for r in st["others"]]
             st["outcomes"] = [apply_edit(heap2, b2, e) for e in edits]
 
         if t["kind"] == "functionalize" and side == "clone":
             # the edit history IS the wrapped pass; the original is observed before the call and after it
             st["others"] = roots2 + [src2]
             st["before"] = ([snapshot(r) for r in st["others"]], [serialize(r) for r in st["others"]])
+            st["lax_before"] = [snapshot(r, shared_state=False) for r in st["others"]]
+            st["t_before"] = [snapshot(r, tensor_names=True, attr_state=False) for r in st["others"]]
+            st["a_before"] = [snapshot(r, tensor_names=False, attr_state=True) for r in st["others"]]
 
             class EditPass(ir.passes.InPlacePass):
                 def call(self, model):
@@ -1368,14 +1536,29 @@ def real_case(spec, histories_seed, n_hist, n_edits, out, fixed_plans=None):
         else:
             edit_clone(do_clone_kind(b2, kind, t))
         others = st["others"]
+        world2 = heap2.dump()  # before the oracle serializes anything (serialization renames shared tensors)
+        lax_after = [snapshot(r, shared_state=False) for r in others]
+        t_after = [snapshot(r, tensor_names=True, attr_state=False) for r in others]
+        a_after = [snapshot(r, tensor_names=False, attr_state=True) for r in others]
         after = ([snapshot(r) for r in others], [serialize(r) for r in others])
         if after != st["before"]:
-            # find the first responsible edit for the signature
-            culprit = culprit_edit(spec, kind, t, side, edits)
-            out.fail(f"frame:{side}-edited:{culprit}:{tag}",
-                     f"editing the {side} changed the {'original' if side == 'clone' else 'clone'}",
-                     {"spec": spec, "side": side, "edits": edits})  # fmt: skip
-        res["hist"].append({"side": side, "edits": edits, "outcomes": st["outcomes"], "world2": heap2.dump(),
+            victim = "original" if side == "clone" else "clone"
+            if lax_after == st["lax_before"] and after[1] == st["before"][1]:
+                # only the state of objects the two copies share by design differs
+                kinds = []
+                if t_after != st["t_before"]:
+                    kinds.append("tensor-name")
+                if a_after != st["a_before"]:
+                    kinds.append("attr-meta")
+                out.fail(f"frame:shared-{'+'.join(kinds) or 'state'}:{side}-edited:{tag}",
+                         f"editing the {side} changed a tensor name / Attr.meta that the {victim} shares",
+                         {"spec": spec, "side": side, "edits": edits})  # fmt: skip
+            else:
+                # find the first responsible edit for the signature
+                culprit = culprit_edit(spec, kind, t, side, edits)
+                out.fail(f"frame:{side}-edited:{culprit}:{tag}", f"editing the {side} changed the {victim}",
+                         {"spec": spec, "side": side, "edits": edits})  # fmt: skip
+        res["hist"].append({"side": side, "edits": edits, "outcomes": st["outcomes"], "world2": world2,
                             "tr": [translate_edit_later(heap2, b2, e) for e in edits]})  # fmt: skip
     return res
 
@@ -1392,7 +1575,7 @@ def translate_edit_later(heap, b, e):
     """everything of translate_edit that needs the real heap (payload / tensor ids); ids mapped later"""
     r = dict(e)
     if e["e"] == "setConst":
-        r["t"] = None if e["t"] is None else heap.tensor(b.tensors[e["t"]])
+        r["t"] = None if e["t"] is None else heap.ref("tensor", b.tensors[e["t"]])
     if e["e"] == "setAttr":
         r["p"] = heap.payload(("INT", repr(int(e["val"]))))
     return r
@@ -1407,6 +1590,8 @@ def culprit_edit(spec, kind, t, side, edits):
             heap.add_root(r)
         src = b.target()
         heap.add_root(src)
+        for tn in b.tensors:
+            heap.ref("tensor", tn)
         heap.dump()
         clone = do_clone_kind(b, kind, t)
         heap.add_root(clone)
@@ -1424,10 +1609,15 @@ def culprit_edit(spec, kind, t, side, edits):
 def map_ids(e, m):
     r = {"op": "edit"}
     for k, x in e.items():
-        if k in _ID_FIELDS and x is not None:
+        if (k in _ID_FIELDS or (k == "t" and e["e"] == "setConst")) and x is not None:
             r[k] = m.get(x, 10**9)
         elif k == "inputs":
             r[k] = [None if y is None else m.get(y, 10**9) for y in x]
+        elif k == "dev":
+            r[k] = [{"cfg": d["cfg"], "specs": [[None if v is None else m.get(v, 10**9), p] for v, p in d["specs"]]}
+                    for d in x]  # fmt: skip
+        elif k in ("devspec", "field"):
+            continue
         else:
             r[k] = x
     return r
@@ -1515,8 +1705,12 @@ def compare_cases(ctx: Ctx, results):
             continue
         m = dict(zip(oi, om))  # impl raw id -> model raw id
         for h in r["hist"]:
-            edits = [map_ids(e, m) for e in h["tr"]]
-            reqs2.append({"m": "clone.history", "world": r["world0"], "clone": r["step"], "edits": edits})
+            edits = [map_ids(e, m) for e in h["tr"] if e["e"] not in ORACLE_ONLY]
+            if r["spec"]["target"]["kind"] == "functionalize" and h["side"] == "clone":
+                # `IrVerif.Clone.functionalize`: the pass is the edit history
+                reqs2.append({"m": "clone.functionalize", "world": r["world0"], "mo": r["step"]["mo"], "edits": edits})
+            else:
+                reqs2.append({"m": "clone.history", "world": r["world0"], "clone": r["step"], "edits": edits})
             idx2.append((r, h, mroots, iroots))
     # the serialization model (C13_faithful_serialize): defined on the abstracted heap? same for clone and original?
     sreqs, sres = [], []
@@ -1529,6 +1723,15 @@ def compare_cases(ctx: Ctx, results):
             continue
         real_ok = r.get("src_serializes", False)
         ctx.count(f"serGraph_defined={o['defined']}:real_serializes={real_ok}")
+        if real_ok and not o["defined"]:
+            # the observation function is stricter than serde only where a container is inconsistent
+            if r.get("ser_excuse"):
+                ctx.count(f"serGraph_undefined_because={r['ser_excuse']}")
+            else:
+                ctx.disagree("serGraph undefined on a heap the real serializer accepts, and no container is inconsistent",
+                             {"spec": r["spec"]}, o, None)  # fmt: skip
+        if o["defined"] and not real_ok:
+            ctx.count(f"serGraph_defined_but_serde_raises={r.get('src_ser_exc')}")
         if o["defined"] and not (o.get("equal") and o.get("same_after")):
             ctx.disagree("serGraph(clone) != serGraph(original) although defined (contradicts C13_faithful_serialize)",
                          {"spec": r["spec"]}, o, None)  # fmt: skip
@@ -1539,14 +1742,19 @@ def compare_cases(ctx: Ctx, results):
         if "err" in o:
             ctx.disagree("driver error (edits)", case, o, None)
             continue
-        mo = [x["r"] for x in o["outcomes"][1:]]
+        via_functionalize = "outcomes" not in o  # `clone.functionalize` answers the final heap only
+        mo = None if via_functionalize else [x["r"] for x in o["outcomes"][1:]]
         ctx.case(case, bool(h["edits"]), side=h["side"], hist_len=len(h["edits"]))
         for e, oc in zip(h["edits"], h["outcomes"]):
             ctx.count(f"edit={e['e']}:{oc}")
-        if "unsupported" in mo:
+        keep = [i for i, e in enumerate(h["edits"]) if e["e"] not in ORACLE_ONLY]
+        h = dict(h, edits=[h["edits"][i] for i in keep], outcomes=[h["outcomes"][i] for i in keep])
+        if via_functionalize:
+            ctx.count("via_model_functionalize")
+        elif "unsupported" in mo:
             ctx.count("model_unsupported_edit")
             continue
-        if mo != h["outcomes"]:
+        if not via_functionalize and mo != h["outcomes"]:
             k = next(i for i, (a, c) in enumerate(zip(mo, h["outcomes"])) if a != c)
             ctx.disagree(f"edit outcome #{k} {h['edits'][k]['e']}: model {mo[k]}, implementation {h['outcomes'][k]}",
                          case, o["outcomes"][k + 1], h["outcomes"][k])  # fmt: skip
